@@ -52,6 +52,7 @@ type indexTarget struct {
 	depData map[string]string
 	doc     string
 	data    string
+	run     string
 }
 
 func (t *indexTarget) Name() string {
@@ -93,6 +94,7 @@ func (t *indexTarget) info() targetInfo {
 		Doc:          t.doc,
 		Dependencies: t.depData,
 		Data:         t.data,
+		Run:          t.run,
 	}
 }
 
@@ -151,6 +153,7 @@ func (proj *Project) loadIndex() error {
 				deps:    deps,
 				depData: info.Dependencies,
 				data:    info.Data,
+				run:     info.Run,
 			}
 		}
 
